@@ -381,7 +381,15 @@ func streamScenario(r *rand.Rand, i int, tier string) *Case {
 	nn := 2 + r.Intn(3)
 	var objs []client.Object
 	for k := 0; k < nn; k++ {
-		objs = append(objs, &corev1.Node{ObjectMeta: metav1.ObjectMeta{Name: fmt.Sprintf("n%d", k)}})
+		n := &corev1.Node{ObjectMeta: metav1.ObjectMeta{Name: fmt.Sprintf("n%d", k)}}
+		if r.Intn(3) == 0 {
+			// per-node resource overrides, for one or for two containers (the pod's node hash covers both)
+			n.Annotations = map[string]string{overrideKey(testNS, testEDS, "main"): `{"limits":{"cpu":"1"}}`}
+			if r.Intn(2) == 0 {
+				n.Annotations[overrideKey(testNS, testEDS, "side")] = `{"requests":{"memory":"64Mi"}}`
+			}
+		}
+		objs = append(objs, n)
 	}
 	withCanary := r.Intn(3) != 0
 	eds := newScenarioEDS(r, testNS, testEDS, 1, nn, now, withCanary)
